@@ -125,6 +125,7 @@ theorem Agree.apply {P S} {h h' : Heap} (g : Agree P S h h') (u : Upd) :
   | err e k v =>
     refine { g with errs := ?_ }
     simp only [Upd.apply, g.errs]
+  | tmpl => exact { g with }
 
 theorem Agree.apply_all {P S} {h h' : Heap} (g : Agree P S h h') (us : List Upd) :
     Agree P S (applyAll h us) (applyAll h' us) := by
@@ -144,6 +145,7 @@ def Upd.outside (P : ThreadId → AppId → Prop) (S : Inst → Prop) : Upd → 
   | .ncopies t a => ¬ P t a
   | .reg t a _ _ => ¬ P t a
   | .err _ _ _ => False            -- shared by everybody: never outside a slice
+  | .tmpl => True                  -- the init-once flag is not part of any slice: nothing read depends on it
 
 theorem Agree.outside {P S} (h : Heap) (u : Upd) (ho : u.outside P S) : Agree P S h (u.apply h) := by
   cases u with
@@ -217,6 +219,7 @@ theorem Agree.outside {P S} (h : Heap) (u : Upd) (ho : u.outside P S) : Agree P 
       exact absurd p ho
     · rfl
   | err e k v => exact absurd ho id
+  | tmpl => exact { Agree.refl h with }
 
 theorem Agree.outside_all {P S} (h : Heap) (us : List Upd) (ho : ∀ u ∈ us, u.outside P S) :
     Agree P S h (applyAll h us) := by
@@ -308,6 +311,7 @@ theorem plan_agree {P S R} {h h' : Heap} (t : ThreadId) (a : AppId) (acc : Acces
   | newCopy => simp only [plan, enc]
   | errGet e k => simp only [plan, g.errs]
   | errSet e k x => simp only [plan]
+  | tmplLoad => rfl
 
 theorem regDict_ok {h : Heap} {t : ThreadId} {a : AppId} {r : Reg} {o : Oid} {d : Dict}
     (hr : regDict h t a r = .ok (o, d)) : h.regs t a r = some (.dict o) := by
@@ -424,6 +428,9 @@ theorem plan_outside {P S R} {h : Heap} (t : ThreadId) (a : AppId) (acc : Access
     simp only [plan]
     split <;> intro u hu <;> simp at hu
   | errSet e k x => exact absurd hsh id
+  | tmplLoad =>
+    simp only [plan]
+    intro u hu; simp at hu; subst hu; trivial
 
 /-! ### ownership is kept -/
 
@@ -472,6 +479,7 @@ theorem Own.apply {R} {h : Heap} (ow : Own R h) (u : Upd) (hk : u.keeps R) : Own
   | next t a => exact { ow with }
   | ncopies t a => exact { ow with }
   | err e k v => exact { ow with }
+  | tmpl => exact { ow with }
   | reg t a r v =>
     refine { ow with regs := ?_ }
     intro w b r' o
@@ -624,6 +632,9 @@ theorem plan_keeps {R} {h : Heap} (t : ThreadId) (a : AppId) (acc : Access) (ow 
     simp only [plan]
     split <;> intro u hu <;> simp at hu
   | errSet e k x =>
+    simp only [plan]
+    intro u hu; simp at hu; subst hu; trivial
+  | tmplLoad =>
     simp only [plan]
     intro u hu; simp at hu; subst hu; trivial
 
